@@ -72,6 +72,10 @@ func runC02(c *ctx) error {
 			}
 		}
 		src, style := renderStyles(rng, doc)
+		if d := c.corpusAt(i, 4); d != nil {
+			src, style = []byte(d.Document), "regression-corpus"
+			interpolateFirst = i%2 == 1
+		}
 		if src == nil {
 			continue
 		}
